@@ -78,7 +78,7 @@ extern "C" void h_file_fixedpoint(int ver, int feat) {
 	FmRange s2 = fm_save(b, true);
 	// s2 is the normal form of a loaded file (texture paths cleaned on load): it must be a fixed point.  The
 	// API-built model's own first save (s1) is already in normal form unless it carries an uncleaned texture path.
-	if (!(feat & FM_TEXPATH))
+	if (!(feat & (FM_TEXPATH | FM_SRCTEX)))
 		sym_assert(sym_out_equal(s1.a, s1.b, s2.a, s2.b), "C01-file-fixedpoint: load+save of the written file is not byte-identical");
 	check_tables(b, s2, false);
 	{
